@@ -471,8 +471,8 @@ func cmdCheck(args []string) int {
 			continue
 		}
 		results = append(results, r)
-		fmt.Printf("harness %s: paths=%d (%v) decided=%d queries sat=%d unsat=%d unknown=%d solver=%.1fs wall=%.1fs candidates=%d\n",
-			h.Func, r.stats.Paths, r.stats.PathKinds, r.decided, r.queries.Sat, r.queries.Unsat, r.queries.Unknown, r.solverTime.Seconds(), r.wall.Seconds(), len(r.violations))
+		fmt.Printf("harness %s: paths=%d (%v) decided=%d filtered=%d queries sat=%d unsat=%d unknown=%d solver=%.1fs wall=%.1fs candidates=%d\n",
+			h.Func, r.stats.Paths, r.stats.PathKinds, r.decided, r.stats.Filtered, r.queries.Sat, r.queries.Unsat, r.queries.Unknown, r.solverTime.Seconds(), r.wall.Seconds(), len(r.violations))
 		if len(r.engineErrs) > 0 {
 			broken = true
 			for _, e := range r.engineErrs {
@@ -630,6 +630,7 @@ func explore(ld *loaded, h HarnessCfg, tier string, workers int, known []KnownFi
 			res.stats.Paths += ex.stats.Paths
 			res.stats.Forks += ex.stats.Forks
 			res.stats.Merged += ex.stats.Merged
+			res.stats.Filtered += ex.stats.Filtered
 			for k, v := range ex.stats.PathKinds {
 				res.stats.PathKinds[k] += v
 			}
@@ -866,7 +867,7 @@ func writeEvidence(prop, tier string, seed int, pc PropCfg, results []*harnessRe
 		perHarness = append(perHarness, map[string]any{
 			"harness": r.cfg.Func, "kernel": r.cfg.Kernel, "what": r.cfg.What, "bounds": r.cfg.Bounds,
 			"params": r.params, "paths": r.stats.Paths, "path_kinds": r.stats.PathKinds,
-			"solver_decisions": r.decided, "if_converted": r.stats.Merged, "assert_labels": r.asserts,
+			"solver_decisions": r.decided, "if_converted": r.stats.Merged, "decided_by_domain_filter": r.stats.Filtered, "assert_labels": r.asserts,
 			"queries": map[string]int{"sat": r.queries.Sat, "unsat": r.queries.Unsat, "unknown": r.queries.Unknown},
 			"solver":  defaultStr(r.cfg.Solver, "z3-new"), "solver_time_s": round1(r.solverTime.Seconds()), "wall_s": round1(r.wall.Seconds()),
 			"candidates": len(r.violations), "max_call_depth": r.maxDepth, "budget_exhausted": r.timedOut,
